@@ -55,7 +55,21 @@ REL = "pandora/criteria.py"
 # callees before callers; "value": returns a local array, "mask": the result is the validity mask afterwards
 FUNCS = [("binary_dilation_msk", "value"), ("allocate_left_mask", "mask"), ("allocate_right_mask", "mask"),
          ("validity_mask", "mask"), ("mask_invalid_variable_disparity_range", "mask"), ("mask_border", "mask")]
-OBLIGATIONS = []
+OBLIGATIONS = [
+    "Gen.CriteriaFns g_binary_dilation_msk = Model.Criteria.dil, element by element, err = false, every layout and ROI origin "
+    "(C04_gen_binary_dilation_eq_model, re-proved on the regenerated file)",
+    "Gen.CriteriaFns g_allocate_left_mask = Model.Criteria.alloc_left with the regenerated flag sites "
+    "(C04_gen_allocate_left_mask_eq_model)",
+    "Gen.CriteriaFns g_allocate_right_mask (fold_left over range(d_min, d_max + 1) on whole arrays) = Model.Criteria.alloc_right "
+    "(fold of arm_step per pixel), any bit_1 index array holding the bit-1 columns (C04_gen_allocate_right_mask_eq_model)",
+    "Gen.CriteriaFns g_validity_mask = Model.Criteria.validity_mask_px (C04_gen_validity_mask_eq_model; col coordinates "
+    "c0 .. c0+nc-1 for every origin c0)",
+    "Gen.CriteriaFns g_mask_invalid_variable_disparity_range = Model.Criteria.mivdr (C04_gen_mivdr_eq_model)",
+    "Gen.CriteriaFns g_mask_border = Model.Criteria.mask_border_px (C04_gen_mask_border_eq_model)",
+    "gen_after_mc (the three calls in pipeline order) = Model.Criteria.after_mc with E0 = the regenerated flag sites "
+    "(C04_gen_criteria_eq_model); C04_gen_after_mc_expected / _border_bit0_only / _bit7_iff / _invalid_iff_nocost restate the "
+    "model theorems on the generated functions",
+]
 
 VM = "@validity_mask"      # key of the pseudo-variable in the environment
 W = "w_validity_mask"
